@@ -85,8 +85,21 @@ def writer_rule(ctx, rule="R07.1"):
     ctx.note(rule, "Krige.set_drift_functions changes _drift_functions without rebuilding the kriging matrix; the documented refresh is set_condition(), which invalidates")
     # Field.set_pos deletes own fields when type or positions changed
     sp = prog.func(FB, "Field.set_pos")
+    from ..small import _sym_subst, sym_eval, sym_text
+
     ifs = [s for s in sp.body if isinstance(s, ast.If) and any("delete_fields" in ast.unparse(x) for x in s.body)]
-    ok = len(ifs) == 1 and ast.unparse(ifs[0].test) == "old_type != self.mesh_type or not _pos_equal(old_pos, self.pos)" and any(norm_stmt(x) == "info_ret['deleted'] = True" for x in ifs[0].body)
+    want_test = "old_type != self.mesh_type or not _pos_equal(old_pos, self.pos)"
+    ok = len(ifs) == 1 and sym_text(_sym_subst(ifs[0].test, sym_eval(sp.body, stop=ifs[0], opaque=("old_type", "old_pos")))) == want_test
+    if ok:
+        # the deletion is reported: either the info dict is updated in the same arm, or the returned dict carries the very same condition
+        reported = any(norm_stmt(x) == "info_ret['deleted'] = True" for x in ifs[0].body)
+        for r in [x for x in ast.walk(sp) if isinstance(x, ast.Return) and x.value is not None]:
+            val = _sym_subst(r.value, sym_eval(sp.body, stop=r, opaque=("old_type", "old_pos")))
+            for d in [x for x in ast.walk(val) if isinstance(x, ast.Dict)]:
+                for k_, v_ in zip(d.keys, d.values):
+                    if isinstance(k_, ast.Constant) and k_.value == "deleted" and sym_text(v_) == want_test:
+                        reported = True
+        ok = reported
     ctx.check(ok, rule, FB + "::Field.set_pos", "stored fields are deleted and reported as deleted whenever mesh type or positions changed", "set-pos")
     olds = {ast.unparse(n.targets[0]): ast.unparse(n.value) for n in sp.body if isinstance(n, ast.Assign)}
     idx = {ast.unparse(s): i for i, s in enumerate(sp.body)}
@@ -128,7 +141,8 @@ def reuse_rule(ctx, rule="R07.2"):
     # raw kriging field is stored only when it was recomputed
     st = [s for s in fn.body if isinstance(s, ast.If) and ast.unparse(s.test) == "not reuse"]
     stb = [norm_stmt(x) for x in st[0].body] if len(st) == 1 else []
-    ok = "self.post_field(rawkrige, name[2], False, save[2])" in stb and all(x == "self.post_field(rawkrige, name[2], False, save[2])" or x.startswith("self._krige_var_ref = ") for x in stb)
+    store_forms = ("self.post_field(rawkrige, name[2], False, save[2])", "stored = self.post_field(rawkrige, name[2], False, save[2])")
+    ok = any(x in store_forms for x in stb) and all(x in store_forms or x.startswith("self._krige_var_ref = ") or x.startswith("self._raw_krige_ref = ") for x in stb)
     ctx.check(ok, rule, site, "the raw kriging field is stored unprocessed under the name the reuse test looks for", "store-raw")
     # pre_pos -> set_pos(info=True) plumbing
     pre = prog.func(FB, "Field.pre_pos")
@@ -191,6 +205,38 @@ def provenance_rule(ctx, rule="R07.8"):
     for u in guarded:
         par_ok = any(isinstance(s2, ast.If) and ast.unparse(s2.test) == "not reuse" and any(u is x for x in ast.walk(s2)) for s2 in fn.body)
         ctx.check(par_ok, rule, site, "the remembered variance object is replaced only when the kriging results were recomputed", "provenance-guard")
+    # the raw kriging field is stored under a caller-chosen NAME: the field found under today's name must be the very array that was stored
+    # together with the remembered variance (alternating names across set_condition() otherwise pair an old field with the new variance)
+    raw_ties = []
+    for c in conj:
+        if isinstance(c, ast.Compare) and len(c.ops) == 1 and isinstance(c.ops[0], ast.Is):
+            sides = [ast.unparse(c.left), ast.unparse(c.comparators[0])]
+            st_ = [x for x in sides if x == "self[name[2]]"]
+            pv_ = [x for x in sides if x.startswith("self._")]
+            if st_ and pv_:
+                raw_ties.append(pv_[0])
+    if not raw_ties:
+        ctx.violation(rule, site, "the reuse test ties the kriging variance to the remembered object, but the raw kriging field only by its name `name[2]`: a field stored under that name "
+                      "by an earlier call (before the conditions changed) would be reused", "no-raw-provenance")
+    else:
+        from ..small import _sym_subst, sym_eval, sym_text
+
+        ups = [n for n in ast.walk(fn) if isinstance(n, ast.Assign) and ast.unparse(n.targets[0]) == raw_ties[0]]
+        good = bool(ups)
+        # post_field stores np.asarray(field).reshape(...), a NEW array object: the object to remember is the one post_field returns (or the
+        # stored field read back), never the array handed in
+        stored_texts = ("self.post_field(rawkrige, name[2], False, save[2])", "self[name[2]]")
+        for u in ups:
+            v = u.value
+            owner = next((s2 for s2 in ast.walk(fn) if isinstance(s2, ast.If) and any(u is x for x in s2.body)), None)
+            env = sym_eval(owner.body if owner is not None else fn.body, stop=u)
+            body_txt = sym_text(_sym_subst(v.body if isinstance(v, ast.IfExp) else v, env))
+            via_ifexp = isinstance(v, ast.IfExp) and (flag is None or ast.unparse(v.test) == flag) and body_txt in stored_texts and ast.unparse(v.orelse) == "None"
+            via_if = (not isinstance(v, ast.IfExp)) and body_txt in stored_texts and (flag in (None, "True") or any(isinstance(s2, ast.If) and ast.unparse(s2.test) == flag and any(u is x for x in ast.walk(s2)) for s2 in ast.walk(fn)))
+            recompute_only = any(isinstance(s2, ast.If) and ast.unparse(s2.test) == "not reuse" and any(u is x for x in ast.walk(s2)) for s2 in fn.body) or any(u is x for st2 in ri.orelse for x in ast.walk(st2))
+            good = good and (via_ifexp or via_if) and recompute_only
+        ctx.check(good, rule, site, "the stored raw kriging field must be the very array (%s) stored together with the remembered variance; it is remembered as the object post_field stored (its return value), on the recompute path, only when stored" % raw_ties[0],
+                  "provenance-raw")
 
 
 RESULT_NEUTRAL_KRIGE_ARGS = {"chunk_size": "only splits the target points into chunks; the results are the same"}
